@@ -1,9 +1,11 @@
 package props
 
 import (
+	"bytes"
 	"context"
 	"fmt"
 	"math/rand"
+	"net/http"
 	"net/url"
 	"regexp"
 	"strings"
@@ -212,11 +214,42 @@ func hostileRelay(rng *rand.Rand) string {
 }
 
 // c17Judge checks one rendered page.
+func isASCII(s string) bool {
+	for i := 0; i < len(s); i++ {
+		if s[i] >= 0x80 {
+			return false
+		}
+	}
+	return true
+}
+
 func c17Judge(r *core.Run, wl string, idx int, class, skel string, d *reply.Decoded, wantURL, wantRelay string, desc any, call *env.Call) {
 	viol := func(clause, reason string) {
 		r.Violate(core.Violation{Clause: clause, Class: class, Reason: reason, Workload: wl, Index: idx, Case: desc, Observed: call.Describe()})
 	}
 	r.Count("pages_checked", 1)
+	// which encoding does a user agent read the page in? When a substituted value has bytes beyond ASCII the page has
+	// to say that it is UTF-8 (Content-Type as set by the handler or, if it sets none, as net/http sniffs it; a byte order
+	// mark; a meta element at the top) - otherwise the parser recovers other characters than were put in
+	if call != nil && call.Rec != nil && (!isASCII(wantRelay) || !isASCII(wantURL)) {
+		body := call.Rec.Body.Bytes()
+		ct := call.Rec.HeaderAtSend.Get("Content-Type")
+		if ct == "" {
+			n := len(body)
+			if n > 512 {
+				n = 512
+			}
+			ct = http.DetectContentType(body[:n])
+		}
+		head := strings.ToLower(string(body[:min(len(body), 1024)]))
+		declared := strings.Contains(strings.ToLower(strings.ReplaceAll(ct, " ", "")), "charset=utf-8") || strings.Contains(strings.ToLower(ct), `charset="utf-8"`) ||
+			bytes.HasPrefix(body, []byte{0xEF, 0xBB, 0xBF}) || strings.Contains(head, `charset=utf-8`) || strings.Contains(head, `charset="utf-8"`)
+		r.Count("pages_whose_encoding_matters", 1)
+		if !declared {
+			viol("encoding_not_declared", fmt.Sprintf("the page carries values with bytes beyond ASCII but nothing tells a user agent that it is UTF-8 (Content-Type %q, no byte order mark, no meta charset): the parser recovers other characters than were put in", ct))
+			return
+		}
+	}
 	if wantRelay == "" {
 		if s0, ok := c17EmptyOf[skel]; ok {
 			skel = s0
